@@ -507,6 +507,17 @@ fn gen_place_graph(src: &mut Src) -> (Graph, Vec<usize>) {
     }
     let mut listing: Vec<usize> = (0..n).collect();
     src.shuffle(&mut listing);
+    // an absolutely placed instance that others are placed against need not be listed itself: it is
+    // reached through the relation and must still come out placed
+    if src.prob(1, 3) {
+        let drop: Vec<usize> = (0..n).filter(|i| g[*i].is_empty() && g.iter().any(|d| d.contains(i))).collect();
+        if !drop.is_empty() {
+            let k = drop[src.index(drop.len())];
+            if listing.len() > 1 {
+                listing.retain(|x| *x != k);
+            }
+        }
+    }
     (g, listing)
 }
 fn place_case(src: &mut Src, ctx: &mut Ctx) -> Result<(), String> {
